@@ -13,6 +13,9 @@ CFG = dict(
     corpus=[x for x in "C03,C05".split(",")],
     n_quick=500, n_thorough=6000, len=(8, 45),
     gen=dict(lock_bias=0.15, letters='BCDFGH'),
+    # per-op lifecycle counts of the instrumented types (constructs / move-constructs / move-assigns / destroys) printed by
+    # the harness and by the model's event function `WM.events` (Model/Lifecycle.lean) and diffed line by line
+    prelude="events on\n",
     what="instrumented component types: per-address live/dead state machine, live-instance counts, afterAssign/beforeRemove callbacks, teardown at the end of every file (also while locked with non-empty buffers)",
 )
 
